@@ -907,7 +907,10 @@ class KGen:
             return IFUN_BOOL + [arg] if ty == "bool" else IFUN_INT + [arg]
         if ty == "bool":
             if dependent:
-                return self.atom([n for n in fl if n in BOOLS], params, scope)
+                bs = [n for n in fl if n in BOOLS]
+                if len(bs) > 1 and r.random() < 0.35:
+                    return ["and", self.atom(bs, params, scope), self.atom(bs, params, scope)]
+                return self.atom(bs, params, scope)
             return ["b", r.choice(["T", "F"])]
         if ty[0] in ("int", "real"):
             lo = int(Fraction(ty[1])) if ty[1] != "_" else -1
@@ -917,6 +920,10 @@ class KGen:
                 nums = [n for n in fl if n in (INTS if ty[0] == "int" else INTS + REALS)]
                 if nums:
                     g = self.fexp(r.choice(nums), params, scope)
+                    if len(nums) > 1 and r.random() < 0.4:
+                        # a value mixing two fluents (typically one static and one not): each class must be reported
+                        g2 = self.fexp(r.choice([n for n in nums if n != g[1][0]] or nums), params, scope)
+                        return ["plus", g, g2] if r.random() < 0.7 else ["minus", g, g2]
                     k = r.random()
                     return g if k < 0.4 else ["plus", g, c] if k < 0.7 else ["times", ["i", "2"], g] if k < 0.85 else ["minus", g, c]
             return c
